@@ -1,6 +1,7 @@
 //! libc symbols overridden in this binary (the definitions here win over libc's for calls made by
 //! std, by the `libc` crate and by khttp's own `extern "C"` declarations).
 use std::sync::atomic::{AtomicBool, AtomicI32, AtomicI64, AtomicUsize, Ordering};
+use std::sync::Mutex;
 
 /// when set, `clock_gettime(CLOCK_REALTIME_COARSE)` returns FAKE_SEC
 pub static FAKE_CLOCK: AtomicBool = AtomicBool::new(false);
@@ -33,3 +34,58 @@ pub unsafe extern "C" fn recv(fd: i32, buf: *mut libc::c_void, len: usize, flags
     }
     libc::syscall(libc::SYS_recvfrom, fd as libc::c_long, buf, len, flags as libc::c_long, 0usize, 0usize) as isize
 }
+
+/// (number of EPOLL_CTL_ADD calls on connection sockets seen so far, indices that must fail)
+pub static ADD_FAIL_PLAN: Mutex<(usize, Vec<usize>)> = Mutex::new((0, Vec::new()));
+pub static ADD_SKIP: AtomicUsize = AtomicUsize::new(2); // listener + wake eventfd registrations come first
+
+#[no_mangle]
+pub unsafe extern "C" fn epoll_ctl(epfd: i32, op: i32, fd: i32, ev: *mut libc::epoll_event) -> i32 {
+    if op == libc::EPOLL_CTL_ADD {
+        // only TCP connection sockets (those with a peer) are counted
+        let mut addr: libc::sockaddr_storage = std::mem::zeroed();
+        let mut len = std::mem::size_of::<libc::sockaddr_storage>() as libc::socklen_t;
+        let has_peer = libc::getpeername(fd, &mut addr as *mut _ as *mut libc::sockaddr, &mut len) == 0;
+        if has_peer {
+            let mut g = ADD_FAIL_PLAN.lock().unwrap_or_else(|e| e.into_inner());
+            let k = g.0;
+            g.0 += 1;
+            if g.1.contains(&k) {
+                *libc::__errno_location() = libc::ENOSPC;
+                return -1;
+            }
+        }
+    }
+    libc::syscall(libc::SYS_epoll_ctl, epfd as libc::c_long, op as libc::c_long, fd as libc::c_long, ev) as i32
+}
+
+/// peer ports of the TCP sockets closed while CLOSE_LOG_ON (one entry per close call)
+pub static CLOSE_LOG: Mutex<Vec<u16>> = Mutex::new(Vec::new());
+pub static CLOSE_LOG_ON: AtomicBool = AtomicBool::new(false);
+
+#[no_mangle]
+pub unsafe extern "C" fn close(fd: i32) -> i32 {
+    if CLOSE_LOG_ON.load(Ordering::Relaxed) {
+        let mut addr: libc::sockaddr_in = std::mem::zeroed();
+        let mut len = std::mem::size_of::<libc::sockaddr_in>() as libc::socklen_t;
+        if libc::getpeername(fd, &mut addr as *mut _ as *mut libc::sockaddr, &mut len) == 0 && addr.sin_family == libc::AF_INET as u16 {
+            // only the server side of a connection: its LOCAL port is the listening port, its peer port is the client's
+            let mut la: libc::sockaddr_in = std::mem::zeroed();
+            let mut ll = std::mem::size_of::<libc::sockaddr_in>() as libc::socklen_t;
+            if libc::getsockname(fd, &mut la as *mut _ as *mut libc::sockaddr, &mut ll) == 0 {
+                let lp = u16::from_be(la.sin_port);
+                let pp = u16::from_be(addr.sin_port);
+                if lp < pp || true {
+                    if let Ok(mut g) = CLOSE_LOG.try_lock() {
+                        // server-side sockets are recognised in post-processing (their peer port is a client port)
+                        if SERVER_PORT.load(Ordering::Relaxed) == 0 || lp as usize == SERVER_PORT.load(Ordering::Relaxed) {
+                            g.push(pp);
+                        }
+                    }
+                }
+            }
+        }
+    }
+    libc::syscall(libc::SYS_close, fd as libc::c_long) as i32
+}
+pub static SERVER_PORT: AtomicUsize = AtomicUsize::new(0);
